@@ -206,6 +206,7 @@ pub struct Machine<'a> {
     pub stdin: &'a [u8],
     pub pos: usize,
     data: Vec<DataDecl>,
+    codata: Vec<CodataDecl>,
 }
 
 enum Stop {
@@ -224,7 +225,7 @@ enum Frame {
 
 impl<'a> Machine<'a> {
     pub fn new(fuel: u64, stdin: &'a [u8]) -> Self {
-        Machine { fuel, out: vec![], stdin, pos: 0, data: data_decls() }
+        Machine { fuel, out: vec![], stdin, pos: 0, data: data_decls(), codata: codata_decls() }
     }
 
     fn value(&self, v: &V, env: &REnv) -> Result<RV, Stop> {
@@ -370,8 +371,15 @@ impl<'a> Machine<'a> {
                         | None => return Err(Stop::Stuck("no matching arm".into())),
                     }
                 }
-                | C::Comatch(_, arms) => match stack.pop() {
-                    | Some(Frame::Dtor(_, k)) => cur = Rc::new(arms[k].clone()),
+                | C::Comatch(d, arms) => match stack.pop() {
+                    // a destructor selects the same-named arm (the observing type may list them in another order)
+                    | Some(Frame::Dtor(ud, k)) => {
+                        let name = self.codata[ud].dtors[k].0;
+                        match self.codata[*d].dtors.iter().position(|(n, _)| *n == name) {
+                            | Some(j) => cur = Rc::new(arms[j].clone()),
+                            | None => return Err(Stop::Stuck("no arm for destructor".into())),
+                        }
+                    }
                     | _ => return Err(Stop::Stuck("comatch without a destructor".into())),
                 },
                 | C::Dtor(body, d, k) => {
